@@ -342,6 +342,14 @@ class KeyedSet(Generic[ItemType, KeyType], MutableSet, KeyedBase):  # pylint: di
     def __lt__(self, other):
         return super().__lt__(self._keyed_operand(other))
 
+    def __ge__(self, other):
+        # (The mixin compares lengths first: the length that counts is the
+        # number of keys, not the number of items carrying them.)
+        return super().__ge__(self._keyed_operand(other))
+
+    def __gt__(self, other):
+        return super().__gt__(self._keyed_operand(other))
+
     def __sub__(self, other):
         return super().__sub__(self._keyed_operand(other))
 
